@@ -244,6 +244,7 @@ def static_checks(x: Extraction, findings):
         for k in kinds:
             if k in BLOCKING:
                 fail('C10', 'emit-never-blocks', 'emit performs the blocking operation `%s`: %s' % (k, ' ; '.join(fmt_op(o) for o in ops)))
+                findings[-1]['scenario'] = {'kind': 'queue-blocking-emit'}
             if k in ('wrapped_emit', 'wrapped_flush', 'handler'):
                 fail('C10', 'emit-never-runs-sink', 'emit runs the wrapped sink / handler on the caller thread')
             if k == 'load' or k == 'is_empty' or k == 'is_full' or k == 'chan_len':
@@ -784,9 +785,27 @@ def scenario_from_trace(steps, capv, handler):
     # constraints on error kinds gathered from environment-dependent branches, per worker iteration
     pending_kind = None
     conds = []
+    accepted_idx = []      # positions (in `out`) of the emits whose metric entered the queue, in queue order
+    nrecv = 0
+    cur_emit = None
     for st in steps:
         if st['begin']:
             out.append({'do': st['begin']})
+        if st['kind'] in ('try_send', 'send_blocking') and st['payload'] == 'some' and st['out'] == 'ok':
+            for i in range(len(out) - 1, -1, -1):
+                if out[i]['do'] == 'emit':
+                    accepted_idx.append(i)
+                    break
+        if st['kind'] == 'recv' and st['out'] == 'some':
+            cur_emit = accepted_idx[nrecv] if nrecv < len(accepted_idx) else None
+            nrecv += 1
+        if st['kind'] == 'branch' and st.get('cond') is not None and cur_emit is not None and 'len_recvd' in st['cond'].sexpr():
+            sv = z3.Solver()
+            sv.add(st['cond'])
+            if sv.check() == z3.sat:
+                ln = sv.model().eval(z3.BitVec('len_recvd', 64), model_completion=True).as_long()
+                if ln == 0:
+                    out[cur_emit]['text'] = ''
         if st['kind'] == 'recv' and st['out'] == 'some':
             out.append({'do': 'wait_enter'})
         if st['kind'] == 'wrapped_emit':
